@@ -47,6 +47,8 @@ type Session struct {
 	BasePath string
 	leak     bool
 	SubDir   string // directory of the Sub view the calls go through
+	// Inline makes Exec run the call on the calling goroutine (no per-call watchdog)
+	Inline bool
 	// CwdFS, when set, is the view whose working directory the projection reports (the acting user's view)
 	CwdFS avfs.VFS
 	Win   bool // a Windows-typed file system: C:\ paths, modes and owners are not compared
@@ -368,13 +370,58 @@ func (s *Session) Exec(c Call) (res Res) {
 		}
 	}
 
-	run(func() { s.exec(c, &res) })
+	if s.AsUser != nil || s.Inline {
+		// the kernel reference: credentials are switched on the calling thread, and the kernel does not hang;
+		// scheduled and free-running programs have their own watchdog and identify goroutines
+		run(func() { s.exec(c, &res) })
+
+		return res
+	}
+
+	// in-memory targets: a call that never returns (an endless loop in the code under test) must not take the
+	// whole run with it - it is reported as HANG after a watchdog delay; the instance is not used any more
+	done := make(chan Res, 1)
+
+	go func() {
+		r := NewRes("ok")
+
+		defer func() {
+			if rec := recover(); rec != nil {
+				if rec == errDeadlock {
+					r = NewRes("DEADLOCK")
+				} else {
+					r = NewRes("PANIC")
+					r.Names = []string{fmt.Sprint(rec)}
+				}
+			}
+
+			done <- r
+		}()
+
+		s.exec(c, &r)
+	}()
+
+	select {
+	case res = <-done:
+		if res.Err == "PANIC" || res.Err == "DEADLOCK" {
+			s.Dead = true
+		}
+	case <-time.After(hangDelay):
+		res = NewRes("HANG")
+		s.Dead = true
+	}
 
 	return res
 }
 
+// hangDelay is how long a single call of an in-memory file system may take before it counts as a hang.
+const hangDelay = 20 * time.Second
+
 func (s *Session) exec(c Call, res *Res) {
 	vfs := s.FS
+	if c.V == 9 && s.Wrap == "sub" && s.Base != nil {
+		vfs = s.Base // a call on the parent of the view (C11's interleavings)
+	}
 	p := s.render(c.P)
 	q := s.render(c.Q)
 
